@@ -39,6 +39,16 @@ pub struct Scenario {
     /// what the segment path holds before the daemon starts (None: nothing, not even the directory)
     pub preexisting: Option<Vec<u8>>,
     pub observe_ms: u64,
+    /// /var/run/clockbound exists as a regular file: the daemon cannot create its segment
+    pub block_directory: bool,
+    /// the stand-in chronyd answers this long after the request arrived
+    pub chronyd_delay_ms: u64,
+}
+
+impl Scenario {
+    pub fn blank() -> Scenario {
+        Scenario { name: "", args: vec![], chronyd: None, phc: PhcFile::Absent, preexisting: None, observe_ms: 1000, block_directory: false, chronyd_delay_ms: 0 }
+    }
 }
 
 pub fn binary(ctx: &Ctx) -> String {
@@ -91,7 +101,7 @@ fn enter_namespace() -> Result<(), String> {
     Ok(())
 }
 
-fn fake_chronyd(ref_id: u32, leap: u16) -> Result<(), String> {
+fn fake_chronyd(ref_id: u32, leap: u16, delay_ms: u64) -> Result<(), String> {
     std::fs::create_dir_all("/var/run/chrony").map_err(|e| e.to_string())?;
     let sock = std::os::unix::net::UnixDatagram::bind("/var/run/chrony/chronyd.sock").map_err(|e| format!("bind chronyd.sock: {e}"))?;
     std::thread::spawn(move || {
@@ -105,6 +115,9 @@ fn fake_chronyd(ref_id: u32, leap: u16) -> Result<(), String> {
                 continue;
             }
             let seq = u32::from_be_bytes([buf[8], buf[9], buf[10], buf[11]]);
+            if delay_ms > 0 {
+                std::thread::sleep(std::time::Duration::from_millis(delay_ms));
+            }
             let reply = tracking_wire(&spec_for(ref_id, leap, real_now_ns() - 1_000_000_000), seq);
             if let Some(p) = addr.as_pathname() {
                 let _ = sock.send_to(&reply, p);
@@ -131,11 +144,14 @@ pub fn run_scenario(bin: &str, sc: &Scenario) -> Result<Value, String> {
             crate::histmc::pipeline::write_sysfs_like(Path::new(&phc_path), v);
         }
         if let Some((id, leap)) = sc.chronyd {
-            if let Err(e) = fake_chronyd(id, leap) {
+            if let Err(e) = fake_chronyd(id, leap, sc.chronyd_delay_ms) {
                 return json!({"unavailable": e});
             }
         }
         let shm = "/var/run/clockbound/shm";
+        if sc.block_directory {
+            let _ = std::fs::write("/var/run/clockbound", b"not a directory");
+        }
         if let Some(bytes) = &sc.preexisting {
             let _ = std::fs::create_dir_all("/var/run/clockbound");
             let _ = std::fs::write(shm, bytes);
@@ -148,6 +164,7 @@ pub fn run_scenario(bin: &str, sc: &Scenario) -> Result<Value, String> {
         let mut pubs: Vec<Value> = vec![];
         let mut last_gen: u16 = 0;
         let mut exit: Option<i32> = None;
+        let mut exit_after_ms: Option<u64> = None;
         let mut appeared = false;
         loop {
             let t = mono_ms() - t0;
@@ -162,6 +179,7 @@ pub fn run_scenario(bin: &str, sc: &Scenario) -> Result<Value, String> {
             }
             if let Ok(Some(st)) = child.try_wait() {
                 exit = Some(st.code().unwrap_or(-1));
+                exit_after_ms = Some(t);
                 break;
             }
             if let Ok(b) = std::fs::read(shm) {
@@ -198,7 +216,7 @@ pub fn run_scenario(bin: &str, sc: &Scenario) -> Result<Value, String> {
         };
         let _ = child.kill();
         let _ = child.wait();
-        json!({"publications": pubs, "daemon_exit_status": exit, "segment_mode_octal": file_mode.map(|m| format!("{m:o}")), "directory_mode_octal": dir_mode.map(|m| format!("{m:o}")),
+        json!({"publications": pubs, "daemon_exit_status": exit, "daemon_exited_after_ms": exit_after_ms, "segment_mode_octal": file_mode.map(|m| format!("{m:o}")), "directory_mode_octal": dir_mode.map(|m| format!("{m:o}")),
             "file_mode": file_mode, "dir_mode": dir_mode, "opened_by_uid_65534": other_user})
     })
 }
